@@ -71,6 +71,14 @@ CLAIMED = {
          "client's text for every edit sequence is the conjunction of these with std's String contracts and is not decided as a whole.",
          "Trusted: rustc MIR/resolution; String::replace_range, char_indices, len_utf16 contracts; three reviewed arithmetic sites (spec/c23_sites.txt).",
          "DESIGN.md §3 C23"),
+ "C19": ("E-MIR", "other", "MIR FIELDS coverage of every sway-ast node's Format impl over its call-graph cone; dominance/`?`-propagation rule on format_module; completeness rule on the comment-map lookup; argument provenance of rewrite_with_comments",
+         "Decides: every content-bearing field (everything except fixed-text keyword/punctuation/opcode tokens, spans and 4 reviewed fields) of every "
+         "non-error variant of the 69 formatted syntax-tree nodes is read in reach(<T as Format>::format); format_module runs comment-map setup, "
+         "module formatting, trailing comments and newline restoration in order with errors propagated; comments_between tests every entry contained "
+         "in the range; comment weaving receives the node's own span and leaf spans. Necessary for token/comment preservation; what is emitted per "
+         "field is not compared token by token.",
+         "Trusted: rustc MIR/resolution; token types carry fixed text; LeafSpans gaps (listed in evidence) only misplace comments.",
+         "DESIGN.md §3 C19"),
  "C20": ("E-TAB+E-MIR", "other", "writer/reader agreement: Display format skeletons vs FromStr separator calls (syn), separator direction against a field-character-class grammar table, keyword-table inverse, MIR FIELDS symmetry of PkgLock::from_node / Lock::to_graph",
          "Decides: for each pinned-source kind and for dependency lines the reader consumes exactly the separators the writer emits and takes "
          "each from the side on which the neighbouring fields cannot contain it; git reference keywords, the member keyword and the source "
